@@ -539,7 +539,10 @@ def tla_conformance(res, nports):
                 if ok:
                     ok = wd.step(actions[-1], res, case, len(actions) - 1)
                     after = observe(wd)
-                    if ok and after != states[dst]:
+                    alt = {"running": False, "listening": frozenset(), "occupied": states[src]["occupied"]}
+                    if ok and a in ("StartFail", "CtxFail") and states[src]["running"] and after == alt:
+                        pass  # the other accepted reading of a failing start on a running bridge (section 4)
+                    elif ok and after != states[dst]:
                         res.violation(f"tla-conformance:{a}", case, f"model edge {a}{'' if arg is None else '(%d)' % arg} from {states[src]} leads to {states[dst]}; the bridge shows {after}")
                 res.traces += 1
                 res.case(("tla", nports, tuple(actions)))
